@@ -421,7 +421,16 @@ func zzApplyOps(tx walletdb.ReadWriteTx, ref *zzRef, nOps int) {
 		case 0, 1: // put in top / nested
 			nested := verifrt.Choice(2, "where") == 1
 			k := zzKeys[verifrt.Choice(len(zzKeys), "key")]
-			v := verifrt.Bytes("val", 2)
+			// the value: two symbolic bytes, or empty, or nil (bbolt stores
+			// both of the latter as a present key with a zero-length value)
+			var v []byte
+			switch verifrt.Choice(3, "value-kind") {
+			case 0:
+				v = verifrt.Bytes("val", 2)
+			case 1:
+				v = []byte{}
+				verifrt.Reach("empty-value")
+			}
 			b, m := top, ref.top
 			if nested {
 				if !ref.hasN {
@@ -437,6 +446,10 @@ func zzApplyOps(tx walletdb.ReadWriteTx, ref *zzRef, nOps int) {
 			// read your own write
 			got := b.Get(k)
 			verifrt.Assert(verifrt.BytesEq(got, v), "c11-read-your-writes")
+			// ... also through a cursor (a zero-length value reads back as
+			// nil from Get, so presence is only visible by iteration)
+			ck, _ := b.ReadWriteCursor().Seek(k)
+			verifrt.Assert(string(ck) == string(k), "c11-read-your-writes-by-cursor")
 		case 2: // delete
 			k := zzKeys[verifrt.Choice(len(zzKeys), "key")]
 			verifrt.Assert(top.Delete(k) == nil, "c11-delete")
@@ -457,6 +470,8 @@ func zzApplyOps(tx walletdb.ReadWriteTx, ref *zzRef, nOps int) {
 		case 5: // put over a bucket key / create over a value key: incompatible
 			if ref.hasN {
 				verifrt.Assert(top.Put([]byte("n"), []byte{1}) == walletdb.ErrIncompatibleValue, "c11-put-on-bucket-key")
+				verifrt.Assert(top.Put([]byte("n"), []byte{}) == walletdb.ErrIncompatibleValue, "c11-empty-put-on-bucket-key")
+				verifrt.Assert(top.Put([]byte("n"), nil) == walletdb.ErrIncompatibleValue, "c11-nil-put-on-bucket-key")
 			}
 			if _, ok := ref.top["a"]; ok {
 				_, err := top.CreateBucket([]byte("a"))
